@@ -6,6 +6,7 @@ import (
 	"errors"
 	"sort"
 	"strings"
+	"sync"
 )
 
 // Shared harness library for the storage properties (C01–C06, C08): an in-memory model of the
@@ -16,14 +17,23 @@ var vsymErrS3 = errors.New("vsym: injected S3 failure")
 
 type vsymS3 struct {
 	objs    map[string][]byte
-	faulty  bool     // every upload asks the solver whether it fails
-	budget  int      // when > 0: at most this many injected failures
+	faulty  bool // every upload asks the solver whether it fails
+	budget  int  // when > 0: at most this many injected failures
 	failed  int
 	puts    []string // keys written, in order
 	gets    []string
 	onCall  func(op, key string) // scheduling / monitoring hook
 	crashed bool                 // after a crash nothing is written any more
 	failOp  string               // when set: the next call of this operation fails (once)
+	mu      sync.Mutex           // native runs only: segment and index are uploaded from different goroutines
+}
+
+func (s *vsymS3) lock() func() {
+	if vsym_Symbolic() {
+		return func() {}
+	}
+	s.mu.Lock()
+	return s.mu.Unlock
 }
 
 func newVsymS3() *vsymS3 { return &vsymS3{objs: map[string][]byte{}} }
@@ -36,6 +46,7 @@ func (s *vsymS3) call(op, key string) {
 
 func (s *vsymS3) put(op, key string, body []byte) error {
 	s.call(op, key)
+	defer s.lock()()
 	if s.crashed {
 		return vsymErrS3
 	}
@@ -60,16 +71,19 @@ func (s *vsymS3) UploadIndex(ctx context.Context, key string, body []byte) error
 }
 func (s *vsymS3) DeleteSegment(ctx context.Context, key string) error {
 	s.call("delete", key)
+	defer s.lock()()
 	delete(s.objs, key)
 	return nil
 }
 func (s *vsymS3) DeleteIndex(ctx context.Context, key string) error {
 	s.call("delete", key)
+	defer s.lock()()
 	delete(s.objs, key)
 	return nil
 }
 func (s *vsymS3) DownloadSegment(ctx context.Context, key string, rng *ByteRange) ([]byte, error) {
 	s.call("download-segment", key)
+	defer s.lock()()
 	s.gets = append(s.gets, key)
 	d, ok := s.objs[key]
 	if !ok {
@@ -89,6 +103,7 @@ func (s *vsymS3) DownloadSegment(ctx context.Context, key string, rng *ByteRange
 }
 func (s *vsymS3) DownloadIndex(ctx context.Context, key string) ([]byte, error) {
 	s.call("download-index", key)
+	defer s.lock()()
 	d, ok := s.objs[key]
 	if !ok {
 		return nil, ErrNotFound
@@ -97,6 +112,7 @@ func (s *vsymS3) DownloadIndex(ctx context.Context, key string) ([]byte, error) 
 }
 func (s *vsymS3) ListSegments(ctx context.Context, prefix string) ([]S3Object, error) {
 	s.call("list", prefix)
+	defer s.lock()()
 	keys := make([]string, 0, len(s.objs))
 	for k := range s.objs {
 		if strings.HasPrefix(k, prefix) {
@@ -167,6 +183,7 @@ func vsymNewLog(s3 S3Client, start int64, cfg PartitionLogConfig, onFlush func(c
 // vsymDurable reports whether some segment object that has its index object in the fake S3
 // covers [base,last] according to the real footer/index parsers and contains the batch bytes.
 func vsymDurable(s *vsymS3, a vsymAck) bool {
+	defer s.lock()()
 	for key, seg := range s.objs {
 		if !strings.HasSuffix(key, ".kfs") {
 			continue
